@@ -31,6 +31,12 @@ ScDesc ==
       [] Scenario = "square"   -> [funcs |-> <<MapF("f", One("a"), One("y"), One(Spec1("a", One("i"))), One("i")),
                                                MapF("g", One("b"), One("v"), One(Spec1("b", One("j"))), One("j")),
                                                MapF("h", <<"y", "v">>, One("w"), <<Spec1("y", One("i")), Spec1("v", One("j"))>>, <<"i", "j">>)>>]
+      (* a producer of a rank-2 array consumed by two mapped functions that each name ANOTHER axis of it (the other one     *)
+      (* taken whole).  The description states the generator MapSpec; the harness builds the producer WITHOUT a MapSpec      *)
+      (* (`hide_ms`): the MapSpec pipefunc generates from the consumers must denote the same, in every listing order.         *)
+      [] Scenario = "autogen"  -> [funcs |-> <<MkFunc("f", One("s"), One("v"), TRUE, NoSeq, <<"i", "j">>, <<2, 3>>),
+                                               MapF("g", One("v"), One("r"), One(Spec1("v", <<"i", ":">>)), One("i")),
+                                               MapF("h", One("v"), One("c"), One(Spec1("v", <<":", "j">>)), One("j"))>>]
 ScInputs ==
     CASE Scenario = "outer"       -> <<<<"a", InArr("a", One(3))>>, <<"b", InArr("b", One(2))>>>>
       [] Scenario = "zip"         -> <<<<"a", InArr("a", One(3))>>, <<"b", InArr("b", One(3))>>>>
@@ -41,6 +47,7 @@ ScInputs ==
       [] Scenario = "fanout"      -> One(<<"a", InArr("a", One(3))>>)
       [] Scenario = "mappedreducer" -> <<<<"a", InArr("a", One(3))>>, <<"b", InArr("b", One(2))>>>>
       [] Scenario = "square"      -> <<<<"a", InArr("a", One(3))>>, <<"b", InArr("b", One(3))>>>>
+      [] Scenario = "autogen"     -> One(<<"s", Atom("@s")>>)
 Axis == "i"
 N == 3
 
@@ -56,7 +63,7 @@ PartsAll == {<<k1>> : k1 \in {k \in NonEmpty : Sel(k) = All}}
          \cup {p \in IntKeys \X IntKeys \X IntKeys :
                   Sel(p[1]) \cap Sel(p[2]) = {} /\ Sel(p[1]) \cap Sel(p[3]) = {} /\ Sel(p[2]) \cap Sel(p[3]) = {}
                   /\ Sel(p[1]) \cup Sel(p[2]) \cup Sel(p[3]) = All}
-Parts == IF Scenario \in {"fanout", "mappedreducer"} THEN {} ELSE PartsAll
+Parts == IF Scenario \in {"fanout", "mappedreducer", "autogen"} THEN {} ELSE PartsAll
 Rejects == {<<"i", <<"int", N, 0, 0>>>>, <<"i", <<"int", -N - 1, 0, 0>>>>, <<"nope", <<"int", 0, 0, 0>>>>}
            \cup (IF Scenario = "reduceother" THEN {<<"j", <<"int", 0, 0, 0>>>>} ELSE {})
            \cup (IF Scenario \in {"fanout", "mappedreducer"} THEN {<<"i", <<"int", 0, 0, 0>>>>, <<"i", <<"slice", 0, 2, NoneMark>>>>} ELSE {})
